@@ -90,6 +90,7 @@ class Prop:
     exhaustive_note: str = ""
     canon_equal: Optional[Callable[[Case, str, str], bool]] = None  # impl vs model comparison
     search_budget_factor: int = 10
+    case_timeout: int = 120                 # seconds per case on the implementation side
     driver: str = "ofdrv_per"               # lean_exe target serving this property's protocol lines
 
 
@@ -243,13 +244,28 @@ def _pool_init(modname: str):
         _PROP.init_worker()
 
 
+class _CaseTimeout(BaseException):
+    pass
+
+
+def _alarm(signum, frame):
+    raise _CaseTimeout()
+
+
 def _pool_run(batch):
+    import signal
     res = []
+    signal.signal(signal.SIGALRM, _alarm)
     for case in batch:
         try:
+            signal.alarm(_PROP.case_timeout)
             out = _PROP.impl(case)
+        except _CaseTimeout:
+            out = f"HARNESS-CRASH case timeout after {_PROP.case_timeout}s"
         except Exception:  # adapter failure (not an implementation error): surfaced, exit 2
             out = "HARNESS-CRASH " + traceback.format_exc()[-800:].replace("\n", " | ")
+        finally:
+            signal.alarm(0)
         try:
             orc = _PROP.oracle(case, out)
         except Exception:
